@@ -902,7 +902,12 @@ mod c18 {
         };
         let req_tiny = complete && responder && s.relaxed_mtu_nego && p_mtu != 0 && p_mtu < MIN_MTU;
         let req_zero_win = complete && responder && p_win == 0;
-        let resp_bad = complete && !responder && !params_ok(p_mtu, p_win);
+        // a response is in range when the segment size is a BTP one and the window is at least 1 and not larger than the
+        // window an initiator asks for at that segment size (a well-behaved responder never exceeds the requested window,
+        // and the requested one is `initial_window_size` of a segment size that is at least the selected one); whatever is
+        // accepted must then satisfy `params_ok` (C18.handshake.negotiated_parameters_in_range)
+        let resp_in_range = p_mtu >= MIN_SEG && p_mtu <= MAX_SEG && p_win >= 1 && p_win <= Session::initial_window_size(p_mtu);
+        let resp_bad = complete && !responder && !resp_in_range;
         match case {
             HsCase::Main => kani::assume(!req_tiny && !req_zero_win && !resp_bad),
             HsCase::ReqTinyMtu => kani::assume(req_tiny && !req_zero_win),
